@@ -6,7 +6,7 @@ import solvegen
 from core import clist
 
 HEADER = """From Coq Require Import ZArith List Bool.
-From PV Require Import Common.Bits Rand.BV Rand.Expr Rand.Lower Rand.Typing Rand.World Rand.Soft Rand.Unroll Rand.SolveCheck.
+From PV Require Import Common.Bits Rand.BV Rand.Expr Rand.Lower Rand.Typing Rand.World Rand.Soft Rand.Unroll Rand.Dyn Rand.SolveCheck.
 Import ListNotations.
 Open Scope Z_scope.
 """
